@@ -36,6 +36,10 @@ pub mod vsync {
     /// yields to the scheduler before every reference-count operation.
     pub struct Arc<T: ?Sized>(std::sync::Arc<T>);
     pub struct Weak<T: ?Sized>(std::sync::Weak<T>);
+    // `Arc<E>` -> `Arc<dyn Trait>` like std's (needs the unstable marker traits; the port is built with
+    // RUSTC_BOOTSTRAP=1 for exactly this)
+    impl<T: ?Sized + std::marker::Unsize<U>, U: ?Sized> std::ops::CoerceUnsized<Arc<U>> for Arc<T> {}
+    impl<T: ?Sized + std::marker::Unsize<U>, U: ?Sized> std::ops::CoerceUnsized<Weak<U>> for Weak<T> {}
     impl<T> Arc<T> {
         pub fn new(t: T) -> Self {
             Arc(std::sync::Arc::new(t))
@@ -153,6 +157,151 @@ pub mod vsync {
         }
     }
 
+    /// shuttle's atomics yield *before* every operation only. A thread that publishes through an atomic
+    /// write and then goes on writing plain memory (pointer or flag published before the data it
+    /// guards) would run to its next synchronisation without a scheduling point, and the window would
+    /// never be explored. These wrappers yield once more *after* every operation that writes.
+    pub mod atomic {
+        pub use shuttle::sync::atomic::{compiler_fence, fence, Ordering};
+        use shuttle::sync::atomic as sa;
+        #[inline]
+        fn after<R>(r: R) -> R {
+            crate::vpoint::point();
+            r
+        }
+        macro_rules! common {
+            ($t:ty) => {
+                pub fn get_mut(&mut self) -> &mut $t {
+                    self.0.get_mut()
+                }
+                pub fn into_inner(self) -> $t {
+                    self.0.into_inner()
+                }
+                pub fn load(&self, o: Ordering) -> $t {
+                    self.0.load(o)
+                }
+                pub fn store(&self, v: $t, o: Ordering) {
+                    after(self.0.store(v, o))
+                }
+                pub fn swap(&self, v: $t, o: Ordering) -> $t {
+                    after(self.0.swap(v, o))
+                }
+                pub fn fetch_update<F: FnMut($t) -> Option<$t>>(&self, so: Ordering, fo: Ordering, f: F) -> Result<$t, $t> {
+                    after(self.0.fetch_update(so, fo, f))
+                }
+                pub fn compare_exchange(&self, c: $t, n: $t, s: Ordering, f: Ordering) -> Result<$t, $t> {
+                    after(self.0.compare_exchange(c, n, s, f))
+                }
+                pub fn compare_exchange_weak(&self, c: $t, n: $t, s: Ordering, f: Ordering) -> Result<$t, $t> {
+                    after(self.0.compare_exchange_weak(c, n, s, f))
+                }
+            };
+        }
+        macro_rules! wrap_int {
+            ($($name:ident $t:ty),*) => {$(
+                #[derive(Debug, Default)]
+                pub struct $name(sa::$name);
+                impl $name {
+                    pub const fn new(v: $t) -> Self {
+                        Self(sa::$name::new(v))
+                    }
+                    common!($t);
+                    pub fn fetch_add(&self, v: $t, o: Ordering) -> $t { after(self.0.fetch_add(v, o)) }
+                    pub fn fetch_sub(&self, v: $t, o: Ordering) -> $t { after(self.0.fetch_sub(v, o)) }
+                    pub fn fetch_and(&self, v: $t, o: Ordering) -> $t { after(self.0.fetch_and(v, o)) }
+                    pub fn fetch_nand(&self, v: $t, o: Ordering) -> $t { after(self.0.fetch_nand(v, o)) }
+                    pub fn fetch_or(&self, v: $t, o: Ordering) -> $t { after(self.0.fetch_or(v, o)) }
+                    pub fn fetch_xor(&self, v: $t, o: Ordering) -> $t { after(self.0.fetch_xor(v, o)) }
+                    pub fn fetch_max(&self, v: $t, o: Ordering) -> $t { after(self.0.fetch_max(v, o)) }
+                    pub fn fetch_min(&self, v: $t, o: Ordering) -> $t { after(self.0.fetch_min(v, o)) }
+                }
+                impl From<$t> for $name {
+                    fn from(v: $t) -> Self { Self::new(v) }
+                }
+            )*};
+        }
+        wrap_int!(AtomicI8 i8, AtomicI16 i16, AtomicI32 i32, AtomicI64 i64, AtomicIsize isize,
+                  AtomicU8 u8, AtomicU16 u16, AtomicU32 u32, AtomicU64 u64, AtomicUsize usize);
+        #[derive(Debug, Default)]
+        pub struct AtomicBool(sa::AtomicBool);
+        impl AtomicBool {
+            pub const fn new(v: bool) -> Self {
+                Self(sa::AtomicBool::new(v))
+            }
+            common!(bool);
+            pub fn fetch_and(&self, v: bool, o: Ordering) -> bool { after(self.0.fetch_and(v, o)) }
+            pub fn fetch_nand(&self, v: bool, o: Ordering) -> bool { after(self.0.fetch_nand(v, o)) }
+            pub fn fetch_or(&self, v: bool, o: Ordering) -> bool { after(self.0.fetch_or(v, o)) }
+            pub fn fetch_xor(&self, v: bool, o: Ordering) -> bool { after(self.0.fetch_xor(v, o)) }
+        }
+        impl From<bool> for AtomicBool {
+            fn from(v: bool) -> Self { Self::new(v) }
+        }
+        #[derive(Debug)]
+        pub struct AtomicPtr<T>(sa::AtomicPtr<T>);
+        impl<T> AtomicPtr<T> {
+            pub const fn new(v: *mut T) -> Self {
+                Self(sa::AtomicPtr::new(v))
+            }
+            common!(*mut T);
+        }
+        impl<T> Default for AtomicPtr<T> {
+            fn default() -> Self { Self::new(std::ptr::null_mut()) }
+        }
+        impl<T> From<*mut T> for AtomicPtr<T> {
+            fn from(v: *mut T) -> Self { Self::new(v) }
+        }
+    }
+
+    /// std::sync::OnceLock (shuttle has none) over shuttle's blocking Once.
+    pub struct OnceLock<T> {
+        once: shuttle::sync::Once,
+        val: std::cell::UnsafeCell<Option<T>>,
+    }
+    unsafe impl<T: Sync + Send> Sync for OnceLock<T> {}
+    unsafe impl<T: Send> Send for OnceLock<T> {}
+    impl<T> OnceLock<T> {
+        pub const fn new() -> Self {
+            Self { once: shuttle::sync::Once::new(), val: std::cell::UnsafeCell::new(None) }
+        }
+        pub fn get(&self) -> Option<&T> {
+            crate::vpoint::point();
+            if self.once.is_completed() {
+                unsafe { (*self.val.get()).as_ref() }
+            } else {
+                None
+            }
+        }
+        pub fn get_mut(&mut self) -> Option<&mut T> {
+            self.val.get_mut().as_mut()
+        }
+        pub fn set(&self, v: T) -> Result<(), T> {
+            let mut v = Some(v);
+            self.once.call_once(|| unsafe { *self.val.get() = v.take() });
+            match v {
+                None => Ok(()),
+                Some(v) => Err(v),
+            }
+        }
+        pub fn get_or_init<F: FnOnce() -> T>(&self, f: F) -> &T {
+            crate::vpoint::point();
+            self.once.call_once(|| unsafe { *self.val.get() = Some(f()) });
+            unsafe { (*self.val.get()).as_ref().expect("OnceLock initialised") }
+        }
+        pub fn into_inner(self) -> Option<T> {
+            self.val.into_inner()
+        }
+        pub fn take(&mut self) -> Option<T> {
+            self.once = shuttle::sync::Once::new();
+            self.val.get_mut().take()
+        }
+    }
+    impl<T> Default for OnceLock<T> {
+        fn default() -> Self {
+            Self::new()
+        }
+    }
+
     /// std::sync::LazyLock over shuttle's Lazy (a blocking Once: initialised at most once per
     /// execution, racers block until the initialiser returns) - the semantics of std's LazyLock.
     pub struct LazyLock<T: Sync + 'static>(shuttle::lazy_static::Lazy<T>);
@@ -191,8 +340,56 @@ pub mod vpoint {
 }
 pub mod vthread {
     pub use shuttle::thread::*;
-    // environment query without a shuttle counterpart (a constant of the machine)
-    pub use std::thread::available_parallelism;
+    /// shuttle's Builder has no `spawn_scoped`; this one forwards everything else
+    #[derive(Default)]
+    pub struct Builder {
+        name: Option<String>,
+        stack_size: Option<usize>,
+    }
+    impl Builder {
+        pub fn new() -> Self {
+            Self::default()
+        }
+        pub fn name(mut self, name: String) -> Self {
+            self.name = Some(name);
+            self
+        }
+        pub fn stack_size(mut self, n: usize) -> Self {
+            self.stack_size = Some(n);
+            self
+        }
+        fn inner(self) -> shuttle::thread::Builder {
+            let mut b = shuttle::thread::Builder::new();
+            if let Some(n) = self.name {
+                b = b.name(n);
+            }
+            if let Some(n) = self.stack_size {
+                b = b.stack_size(n);
+            }
+            b
+        }
+        pub fn spawn<F, T>(self, f: F) -> std::io::Result<JoinHandle<T>>
+        where
+            F: FnOnce() -> T + Send + 'static,
+            T: Send + 'static,
+        {
+            self.inner().spawn(f)
+        }
+        pub fn spawn_scoped<'scope, 'env, F, T>(self, scope: &'scope Scope<'scope, 'env>, f: F) -> std::io::Result<ScopedJoinHandle<'scope, T>>
+        where
+            F: FnOnce() -> T + Send + 'scope,
+            T: Send + 'scope,
+        {
+            Ok(scope.spawn(f))
+        }
+    }
+    /// Environment query without a shuttle counterpart. The harness decides the answer (like the CPU
+    /// feature mask of C14): 2 unless CONC_PARALLELISM says otherwise, i.e. a two-CPU machine, so that
+    /// budgets, pools and permit counts derived from it collide with two or three threads already.
+    pub fn available_parallelism() -> std::io::Result<std::num::NonZeroUsize> {
+        let n = std::env::var("CONC_PARALLELISM").ok().and_then(|v| v.parse::<usize>().ok()).unwrap_or(2);
+        Ok(std::num::NonZeroUsize::new(n.max(1)).unwrap())
+    }
 }
 /// harness-side event log (plain std mutex: deliberately not a scheduling point)
 pub mod vtrace {
@@ -278,7 +475,7 @@ for root, dirs, files in os.walk(src):
                 s = re.sub(r"(fn (initialize_\w+)\([^)]*\)[^{]*\{\n)", lambda m: m.group(1) + f'    crate::vtrace::init_event("{m.group(2)}");\n', s)
         if rel == "." and f == "lib.rs":
             s = s.replace('#![doc = include_str!(concat!(env!("OUT_DIR"), "/README-rustdocified.md"))]', "")
-            s = s.replace("#![deny(missing_docs)]", "#![allow(warnings)]")
+            s = s.replace("#![deny(missing_docs)]", "#![allow(warnings)]\n#![feature(coerce_unsized, unsize)]")
             s += SHIM
         put(os.path.join(out, "src", rel, f), s)
 
